@@ -156,6 +156,10 @@ structure Env where
   /-- `some` iff the content is a GGUF file the decoder accepts -/
   gguf : Bytes → Option Meta
   v : Variant
+  /-- `envconfig.NoPrune()` (OLLAMA_NOPRUNE): read at every call — create and pull then leave the layers of the
+      manifest they replaced alone and the start-up sequence stops after `fixBlobs`; delete and the
+      `removeLayer` of create.go do not look at it -/
+  noPrune : Bool := false
 
 /-! ## the directory tree under manifests/ -/
 
@@ -235,6 +239,11 @@ def layerRemove (env : Env) (st : Store) (d : Digest) : Store :=
 /-- `Manifest.RemoveLayers` / the calls made by `removeLayer` in create.go, in order -/
 def removeLayers (env : Env) (st : Store) (ls : List Layer) : Store :=
   ls.foldl (fun s l => layerRemove env s l.digest) st
+
+/-- `if !envconfig.NoPrune() && oldManifest != nil { oldManifest.RemoveLayers() }` of `CreateHandler`, and
+    `if !envconfig.NoPrune() && len(deleteMap) > 0 { deleteUnusedLayers(deleteMap) }` of `PullModel` -/
+def gcOld (env : Env) (st : Store) (ls : List Layer) : Store :=
+  if env.noPrune then st else removeLayers env st ls
 
 /-- the file effect of `NewLayer`: written only if no file of that name exists -/
 def putBlob (env : Env) (st : Store) (c : Bytes) : Store :=
@@ -411,6 +420,8 @@ structure CreateReq where
   licenses : List Bytes := []
   /-- `parameters` as (key, raw JSON value) -/
   params : List (String × String)
+  /-- `messages` as (role, content) -/
+  messages : List (String × String) := []
 
 /-- the nondeterminism of one request: map iteration orders -/
 structure Choice where
@@ -523,6 +534,16 @@ def stepParams (env : Env) (st : Store) (layers : List Layer) (p : List (String 
     let (st', ls) := replaceLayer env st layers .params (encodeParams q)
     (st', some ls)
 
+/-- `json.NewEncoder(&b).Encode(m)` of `setMessages` for messages without images and tool calls
+    (`Message.UnmarshalJSON` has lower-cased the role) -/
+def encodeMessages (ms : List (String × String)) : Bytes :=
+  strBytes (jlist (ms.map (fun m => "{\"role\":" ++ jstr (lower m.1) ++ ",\"content\":" ++ jstr m.2 ++ "}")) ++ "\n")
+
+/-- `setMessages`: no messages in the request = the old layers stay; else drop, then store -/
+def stepMessages (env : Env) (st : Store) (layers : List Layer) : List (String × String) → Store × List Layer
+  | [] => (st, layers)
+  | m :: ms => replaceLayer env st layers .messages (encodeMessages (m :: ms))
+
 /-- `createModel`: result `none` = manifest written -/
 def createModel (env : Env) (st : Store) (name : Name) (base : List (Layer × Option Meta)) (r : CreateReq) :
     Store × Option String :=
@@ -537,7 +558,9 @@ def createModel (env : Env) (st : Store) (name : Name) (base : List (Layer × Op
      | (st2, l2) =>
       match stepParams env st2 l2 r.params with
       | (st3, none) => (st3, some "e500")
-      | (st3, some l3) =>
+      | (st3a, some l3a) =>
+       match stepMessages env st3a l3a r.messages with
+       | (st3, l3) =>
         match newLayer env st3 (configJSON metas (l3.map (·.digest))) .config with
         | (st4, cfg) => (setManifest st4 name (.readable ⟨cfg, l3⟩), none)
 
@@ -573,7 +596,7 @@ def createAt (env : Env) (st : Store) (r : CreateReq) (name : Name) (frev : Bool
     | (st1, some err) => (st1, ev ++ [err])
     | (st1, none) =>
       match old with
-      | some m => (removeLayers env st1 m.all, ev ++ ["s"])
+      | some m => (gcOld env st1 m.all, ev ++ ["s"])
       | none => (st1, ev ++ ["s"])
 
 /-! ## the other operations -/
@@ -627,6 +650,8 @@ def fixBlobs (st : Store) : Store :=
 /-- startup sequence of `Serve`: `fixBlobs`; then, unless some manifest fails to parse, `PruneLayers`
     (`PruneDirectory` only removes empty manifest directories) -/
 def pruneStartup (env : Env) (st : Store) : Store × List String :=
+  -- `if !envconfig.NoPrune() { Manifests(false) …; PruneLayers(); PruneDirectory() }`
+  if env.noPrune then (fixBlobs st, ["ok"]) else
   if st.hasCorrupt then (fixBlobs st, ["skip"]) else (pruneDirs (pruneLayers env (fixBlobs st)), ["ok"])
 
 /-- `ListHandler`: readable manifests whose config blob opens -/
@@ -642,7 +667,7 @@ def showAt (env : Env) (st : Store) (t : Name) : String :=
   | some .corrupt => "h500"
   | some (.readable m) =>
     if (st.blob m.config.digest.key).isNone then "h404" else
-    if m.layers.any (fun l => (l.media = .template ∨ l.media = .system ∨ l.media = .params ∨ l.media = .license)
+    if m.layers.any (fun l => (l.media = .template ∨ l.media = .system ∨ l.media = .params ∨ l.media = .license ∨ l.media = .messages)
           && (st.blob l.digest.key).isNone) then "h404" else
     match (m.layers.filter (fun l => l.media = .model)).getLast? with
     | none => "h404"
@@ -683,7 +708,7 @@ def pullAt (env : Env) (st : Store) (name : Name) (reg : Option Manifest) (serve
     | (st1, true) =>
       let st2 := setManifest st1 name (.readable m)
       match st.readableAt name with
-      | some mo => (removeLayers env st2 mo.all, ["s"])
+      | some mo => (gcOld env st2 mo.all, ["s"])
       | none => (st2, ["s"])
 
 /-! ## operations and the step function -/
